@@ -86,6 +86,11 @@ func c07History(c *h.Ctx, id string, r *rand.Rand) {
 	cfg.Tables.ContentStore.Capacity = uint16(capacity)
 	fwenv.Load(cfg)
 	table.Configure()
+	c07WantCap = capacity
+	if got := table.CsCapacity(); got != capacity {
+		c.Violation("C07:configured-capacity-not-in-effect", id, fmt.Sprintf("the forwarder was configured with content-store capacity %d, the capacity in effect after start-up is %d", capacity, got), map[string]any{"configured": capacity, "in_effect": got})
+		return
+	}
 	cs := table.NewPitCS(func(table.PitEntry) {})
 	drainPitTimer(cs)
 	u := gen.NewUniverse(4, false)
@@ -348,6 +353,11 @@ func c07History(c *h.Ctx, id string, r *rand.Rand) {
 			nc := r.Intn(8)
 			hist = append(hist, csOp{Op: "set-capacity", Cap: nc})
 			table.SetCsCapacity(nc)
+			c07WantCap = nc
+			if got := table.CsCapacity(); got != nc {
+				fail("C07:configured-capacity-not-in-effect", fmt.Sprintf("SetCsCapacity(%d) left capacity %d in effect", nc, got), nil)
+				return
+			}
 			c.Distinct("set-capacity")
 		default:
 			d := []time.Duration{5 * time.Millisecond, 100 * time.Millisecond}[r.Intn(2)]
@@ -358,7 +368,11 @@ func c07History(c *h.Ctx, id string, r *rand.Rand) {
 	c.Sample(map[string]any{"capacity": capacity, "ops": len(hist), "first_ops": hist[:min(6, len(hist))]})
 }
 
-func capacityNow() int { return table.CsCapacity() }
+// c07WantCap is the capacity the history configured last (start-up configuration or SetCsCapacity):
+// the model's own notion, not what the implementation reports.
+var c07WantCap int
+
+func capacityNow() int { return c07WantCap }
 
 func c07Run(c *h.Ctx) {
 	n := c.Pick(40, 1500)
